@@ -209,13 +209,13 @@ type Shadow struct {
 	FrozenSnap map[akey]*snapshot // entry at freeze time (nil'ed by exempt changes)
 	Paused     map[uint32]map[string]bool
 	// C07
-	Issued    map[string]map[uint64]bool // token -> nonces issued
-	MaxIssued map[string]uint64
-	Counter   map[rkey]uint64   // (account, token) -> nonce counter held
-	InFlightH map[string]uint64 // token -> counter travelling in an undelivered hand-over (present = in flight)
+	Issued     map[string]map[uint64]bool // token -> nonces issued
+	MaxIssued  map[string]uint64
+	Counter    map[rkey]uint64   // (account, token) -> nonce counter held
+	InFlightH  map[string]uint64 // token -> counter travelling in an undelivered hand-over (present = in flight)
 	InFlightTo map[string]string
 	// C08
-	Meta    map[akey]*refcodec.MetaData            // (holder, token key) -> metadata it must carry
+	Meta    map[akey]*refcodec.MetaData           // (holder, token key) -> metadata it must carry
 	MsgMeta map[int]map[string]*refcodec.MetaData // message id -> token key -> metadata carried
 }
 
